@@ -65,6 +65,23 @@ Theorem adjoint_real_branches_agree : forall (T : Type) (NT : Num T) (CT : Conj 
 Proof. exact (@real_reading_agrees). Qed.
 Print Assumptions adjoint_model_is_generated.
 
+(* ProductSpaceOperator as the code stores it (C05/Coo.v): a list of COO triples (row, col, operator) --
+   DUPLICATE (row, col) pairs allowed (the evaluation sums them), empty rows / columns, any block shape -- between
+   unweighted product spaces with components [cs] (domain) and [rs] (range).  [coo_adjoint] exchanges row and
+   column of every triple and takes the adjoint of every entry; it IS the interpretation of the rule regenerated
+   from ProductSpaceOperator.adjoint ([psop_adjoint_is_generated]: which index array goes where, entries adjointed,
+   spaces swapped).  If every entry satisfies the adjoint identity, so does the block operator. *)
+From Verif Require Import C05.Coo.
+Theorem product_space_operator_adjoint : forall (T : Type) (NT : Num T) (CT : Conj T), cring_ok T ->
+  forall (rs cs : list (list T)) (es : list (nat * nat * oexpr T)), Forall (entry_ok rs cs) es ->
+  adj_pair (concat cs) (concat rs) (coo_eval rs cs es) (coo_eval cs rs (coo_adjoint es)).
+Proof. exact (@coo_adjoint_identity). Qed.
+Theorem psop_adjoint_is_generated : forall (T : Type) (NT : Num T) (CT : Conj T) (es : list (nat * nat * oexpr T)),
+  coo_adjoint_gen psop_rule es = coo_adjoint es
+  /\ ps_shape_swapped psop_rule = true /\ ps_domain psop_rule = PRan /\ ps_range psop_rule = PDom.
+Proof. exact (@coo_adjoint_generated). Qed.
+Print Assumptions product_space_operator_adjoint.
+
 (* TRANSFER.  The model the correspondence shards EXECUTE (carriers Q and Q*Q) is the restriction of the model
    the theorems are ABOUT (carriers R and R*R): Q2R (and its componentwise lift Q2C to complex pairs) is a carrier
    homomorphism and commutes with the evaluation of every tree, with [adjoint], and with the evaluation of the
@@ -225,20 +242,23 @@ Theorem builtin_leaves_good :
      leaf_good (LSampling (repeat cv n) idx b cv) /\ leaf_good (LWSum (repeat cv n) idx b cv) /\
      leaf_good (LFlatten (repeat cv n) idx cv) /\ leaf_good (LUnflatten (repeat cv n) idx cv)).
 Proof. exact (leaves_good_all OK). Qed.
-(* ComponentProjection(Adjoint) with a slice or an index list: any selection of DISTINCT components in any order;
-   FULL STATEMENT (false: component_projection_repeated_index_refuted, and the weighted case as above).
-   _partial: indices distinct and every selected component has product weight 1. *)
-Theorem component_projection_multi_adjoint_partial : forall (ws : list (list T)) (pw : list T) (idxs : list nat),
-  NoDup idxs -> length pw = length ws ->
+(* ComponentProjection(Adjoint) with an index list ([acc = true]: the adjoint accumulates out[j] += y[k], /repo
+   abf8b3b) or a slice ([acc = false]: the adjoint assigns out[index] = y): any selection of components in any
+   order; for lists REPEATED indices are allowed, for the assignment form they must be distinct (slices are).
+   _partial: every selected component has product weight 1 (the weighted case is the open finding). *)
+Theorem component_projection_multi_adjoint_partial :
+  forall (ws : list (list T)) (pw : list T) (idxs : list nat) (acc : bool),
+  (acc = false -> NoDup idxs) -> length pw = length ws ->
   Forall (fun i => (i < length ws)%nat /\ nth i pw nzero = none_) idxs ->
-  leaf_ok (LProjM ws pw idxs).
+  leaf_ok (LProjM ws pw idxs acc).
 Proof. exact (leaf_ok_projm OK). Qed.
-Theorem component_projection_multi_adjoint_adjoint_partial : forall (ws : list (list T)) (pw : list T) (idxs : list nat),
-  NoDup idxs -> length pw = length ws ->
+Theorem component_projection_multi_adjoint_adjoint_partial :
+  forall (ws : list (list T)) (pw : list T) (idxs : list nat) (acc : bool),
+  (acc = false -> NoDup idxs) -> length pw = length ws ->
   Forall (fun i => (i < length ws)%nat /\ nth i pw nzero = none_) idxs ->
   vconj (pweights pw ws) = pweights pw ws ->
   vconj (concat (map (fun i => nth i ws []) idxs)) = concat (map (fun i => nth i ws []) idxs) ->
-  leaf_ok (LProjMAdj ws pw idxs).
+  leaf_ok (LProjMAdj ws pw idxs acc).
 Proof. exact (leaf_ok_projm_adj OK). Qed.
 Theorem projection_and_pointwise_leaves_good :
   (forall (ws : list (list T)) (pw : list T) i, (i < length ws)%nat -> length pw = length ws ->
@@ -392,7 +412,10 @@ Theorem flattening_adjoint_refuted : identity_fails (LFlatten [2] [0%nat] 1).
 Proof. exact flatten_weighted_refuted. Qed.
 Theorem component_projection_adjoint_refuted : identity_fails (LProj [[1]; [1]] [2; 3] 0).
 Proof. exact proj_weighted_refuted. Qed.
-Theorem component_projection_repeated_index_refuted : identity_fails (LProjM [[1]; [1]] [1; 1] [0%nat; 0%nat]).
+(* regression theorem: the assignment semantics (acc = false), used for index lists before /repo abf8b3b,
+   violates the identity on a repeated index -- the NoDup premise above is needed for acc = false *)
+Theorem component_projection_assignment_repeated_index_refuted :
+  identity_fails (LProjM [[1]; [1]] [1; 1] [0%nat; 0%nat] false).
 Proof. exact projm_repeated_refuted. Qed.
 Theorem partial_derivative_nodes_on_bdry_refuted :
   identity_fails (LPDeriv [1/4; 1/2; 1/4] [1/4; 1/2; 1/4] [3%nat] 0 Forward PConstant (1/2)).
